@@ -36,7 +36,18 @@ TEMPL = {
     "xl2": dict(sel=2, side="LAY", price=3.2, size=2.0),  # liability 4.4
     "b3": dict(sel=3, side="BACK", price=5.0, size=4.0),
     "bm1": dict(sel=1, side="LAY", price=2.1, size=4.0, pers="MARKET_ON_CLOSE"),
+    "bp1": dict(sel=1, side="BACK", price=2.1, size=4.0, pers="PERSIST"),
+    "lp1": dict(sel=1, side="LAY", price=2.1, size=4.0, pers="PERSIST"),
 }
+
+
+def _prefixes(dt):
+    """non-initial start states: a resting order that survived a suspension and had a request refused meanwhile
+    (market not open) - the order is still at the exchange and must still be counted"""
+    out = {}
+    for name, t, req in (("back-cancel", "bp1", ["C", 0, None]), ("lay-replace", "lp1", ["R", 0, 2.3]), ("back-cancelpart", "bp1", ["C", 0, 2.0])):
+        out["refused-while-suspended/" + name] = [L.tick(dt, "Q", [["P", dict(TEMPL[t])]]), L.tick(dt, "SUS"), L.tick(dt, "Q", [req]), L.tick(dt, "OPN")]
+    return out
 LINE_TEMPL = {
     "lb": dict(sel=1, side="BACK", price=2.5, size=4.0, ladder="LINE_RANGE", line=(0.5, 9.5, 1)),
     "ll": dict(sel=1, side="LAY", price=2.5, size=4.0, ladder="LINE_RANGE", line=(0.5, 9.5, 1)),
@@ -44,7 +55,7 @@ LINE_TEMPL = {
 }
 
 
-def ref_of(o, assume_status=None, price=None):
+def ref_of(o, assume_status=None, price=None, complete=None):
     kind = {"LIMIT": "LIMIT", "LIMIT_ON_CLOSE": "LOC", "MARKET_ON_CLOSE": "MOC"}[o.order_type.ORDER_TYPE.name]
     line = kind == "LIMIT" and o.order_type.price_ladder_definition == "LINE_RANGE"
     st = assume_status or L.sname(o.status)
@@ -53,8 +64,8 @@ def ref_of(o, assume_status=None, price=None):
         rem = o.size_remaining if st is not None else o.order_type.size
         if st is None:
             rem = o.order_type.size
-        return refs.RefOrder(o.side, "LIMIT", line, st, o.complete, frags, rem, price if price is not None else o.order_type.price, None, o.lookup)
-    return refs.RefOrder(o.side, kind, False, st, o.complete, [], 0, None, o.order_type.liability, o.lookup)
+        return refs.RefOrder(o.side, "LIMIT", line, st, o.complete if complete is None else complete, frags, rem, price if price is not None else o.order_type.price, None, o.lookup)
+    return refs.RefOrder(o.side, kind, False, st, o.complete if complete is None else complete, [], 0, None, o.order_type.liability, o.lookup)
 
 
 def order_exposure(o, price=None):
@@ -95,6 +106,11 @@ class Hooks:
                 continue
             s = L.sname(o.status)
             if s == "VIOLATION":
+                if id(o) not in self.sent or o.bet_id is None:
+                    continue
+                # the order is at the exchange whatever its local status says (a refused later request must not
+                # take it out of the books): counted as the exchange holds it
+                rs.append(ref_of(o, assume_status="EXECUTABLE", complete=not (o.size_remaining > 0)))
                 continue
             if s == "PENDING" and pending == "skip":
                 # decisions: unacknowledged orders are excluded from exposure by design (domain note of the
@@ -111,7 +127,7 @@ class Hooks:
         return max(F(0), -min(w_, l_)), w_, l_
 
     def market_worst(self, w, st, market, exclude=None, extra=None, extra_lookup=None):
-        lookups = {o.lookup for o in market.blotter.strategy_orders(st) if L.sname(o.status) not in ("VIOLATION", "PENDING")}
+        lookups = {o.lookup for o in market.blotter.strategy_orders(st) if L.sname(o.status) != "PENDING" and (L.sname(o.status) != "VIOLATION" or (id(o) in self.sent and o.bet_id is not None))}
         if extra_lookup is not None:
             lookups.add(extra_lookup)
         per = []
@@ -334,6 +350,10 @@ def run(tier):
     for lim in deep:
         cfg = dict(name="deep limits=%s" % (lim,), dt=200, limits=list(lim))
         c04.explore(rep, {"C01"}, alphabet_for(False), tier, [cfg], depth_q=4, depth_t=5 if lim == (5, 9, None) else 4, dev_k_q=0, dev_k_t=0, horizon=0, run=_run)
+    for lim in [(5, 9, None), (None, 9, 12)]:
+        for pname, pre in _prefixes(200).items():
+            cfg = dict(name="from %s limits=%s" % (pname, lim), dt=200, limits=list(lim), prefix=pre)
+            c04.explore(rep, {"C01"}, alphabet_for(False), tier, [cfg], depth_q=2, depth_t=3, dev_k_q=0, dev_k_t=0, horizon=0, run=_run)
     # a limit of exactly 0 is a limit (close-only strategy), not "no limit"
     for lim in [(None, 0, None), (0, None, None), (None, None, 0), (0, 0, 0)]:
         cfg = dict(name="zero limits=%s" % (lim,), dt=200, limits=list(lim))
